@@ -18,8 +18,21 @@ def classify(clause, case, verdict):
 BACKFILL_C01 = ("backfill-wrote-store", "backfill-forwarded-not-served")
 
 
+# the RPC layer alone, for C16 ("returned intact by every later lookup" - the public RPC is such a lookup): same harness and
+# driver; C16 reports only the clauses that say a stored VAA is not, or not byte-exactly, returned
+RPC_C16 = ("rpc-get-lost", "rpc-get-wrong-bytes")
+
+
+def run_rpc_for(ctx, clauses):
+    return _run_part_for(ctx, PARTS[1], clauses, "rget ")
+
+
 def run_backfill_for(ctx, clauses):
-    pkg, rx, mapping, stub, fname = PARTS[2]
+    return _run_part_for(ctx, PARTS[2], clauses, "bfill ")
+
+
+def _run_part_for(ctx, part, clauses, count_prefix):
+    pkg, rx, mapping, stub, fname = part
     ov = ctx.overlay(mapping, p2p_stub=stub)
     if ov is None:
         return
@@ -31,7 +44,7 @@ def run_backfill_for(ctx, clauses):
         tail = "\n".join(l for l in out.split("\n") if not l.startswith("missing: "))[-800:]
         ctx.broken.append(("tie", "go-harness:" + pkg, tail))
         return
-    nb = sum(1 for ln in open(path) if ln.startswith("bfill "))
+    nb = sum(1 for ln in open(path) if ln.startswith(count_prefix))
     before = len(ctx.spec_violations)
     n_ok, stats = ctx.judge("db", path, classify)
     kept = [v for v in ctx.spec_violations[before:] if v["key"] in clauses]
@@ -40,7 +53,7 @@ def run_backfill_for(ctx, clauses):
     if dropped:
         ctx.notes.append("%d Spec verdicts of the admin layer belong to C12 and are reported by its check" % dropped)
     ctx.cov["evaluations"] += nb
-    ctx.cov["backfill_calls"] = nb
+    ctx.cov[count_prefix.strip() + "_calls"] = nb
 
 
 def run(ctx):
